@@ -137,3 +137,20 @@ impl BusListener {
         }
     }
 }
+
+#[cfg(feature = "verif-hooks")]
+impl BusListener {
+    pub(crate) fn verif_snapshot(&self, cookie: [u8; 16]) -> crate::verif::VerifBusListener {
+        let mut filters: Vec<_> = self.filters.iter().map(|f| format!("{f:?}")).collect();
+        filters.sort();
+
+        crate::verif::VerifBusListener {
+            cookie,
+            conn: self.conn_id.verif_id(),
+            filters,
+            scope: self.scope.map(|s| s as u8),
+            matches_all_objects: self.matches_all_objects,
+            matches_specific_services: self.matches_specific_services,
+        }
+    }
+}
